@@ -90,15 +90,20 @@ CLAIMED = {
    note="Partial: 'returns exactly the chunk's content' relies on the correspondence runs (valid files only); the theorem is state-independence.",
    technique="Lean 4 proof (definitional re-establishment of reader state) + exhaustive short request sequences as differential correspondence"),
  'C09': dict(
-   text="Partial proof (Lean 4) on the model of validate_checksums / zck_validate_data_checksum: both leave the descriptor at the data start with "
-        "a fresh running checksum and touch nothing else of the reader state; the data verdict is 1 only for a complete body hashing to the "
-        "header's data checksum; the per-chunk value is 1 exactly when all stored bytes could be read and hash to the index checksum. The "
-        "exact classification of every chunk for arbitrary damage, the all-failed rule, the detached-header rule and 'reads after "
-        "validations = reads without' are evaluated against the reference decoder on all 3^n damage subsets, all truncation lengths etc.",
-   design_ref="DESIGN.md section 7 C09",
-   note="Partial: the whole-scan exactness theorem (positions under truncation) is not proved, only its per-chunk core; file immutability is "
-        "checked by comparing the file before/after each SCAN op (the model has no write operation).",
-   technique="Lean 4 proof (partial: unfolding lemmas on the validator models) + differential correspondence over exhaustive damage subsets"),
+   text="Partial proof (Lean 4) on the model of validate_checksums / zck_validate_data_checksum.  PROVED for EVERY on-disk state of a "
+        "file with data (any chunks absent, zeroed or garbage, truncated anywhere, over-long; scanLoop_exact, find_valid_exact, by "
+        "induction over the index with the read position exact or at the end of a truncated file): a chunk with stored bytes is marked "
+        "valid only if its extent lies in the file and hashes to the index checksum, is marked failed if not, and gets one of the two "
+        "marks (all failed when the override for a wrong whole-data checksum applies); both validators leave the descriptor at the data "
+        "start with a fresh running checksum and touch nothing else of the reader state; the data verdict is 1 only for a complete body "
+        "hashing to the header's data checksum.  NOT proved: the overall verdict of the scan (1 iff every chunk and the data checksum "
+        "match), the detached-header rule and 'reads after validations = reads without'; these and file immutability are evaluated "
+        "against the reference decoder on all 3^n damage subsets, all truncation lengths, validations before AND after reads.",
+   design_ref="DESIGN.md section 7a",
+   note="Partial: per-chunk classification proved for all states; overall verdict, detached headers and read-after-validate are checked. "
+        "Hypothesis of the classification theorem: an empty dictionary entry has no stored bytes (the scan marks it valid unconditionally).",
+   technique="Lean 4 proof (induction over the chunk index with an exact-or-EOF read position invariant) + differential correspondence "
+             "over damage subsets, truncations and validate/read sequences"),
  'C16': dict(
    text="Machine-checked proof (Lean 4) about the chunker model (automatic branch of zck_write with the buzhash state generated from the "
         "source, zck_end_chunk, comp_init limits): every segmentation of the same content yields the same chunks; chunks finished within a "
